@@ -269,8 +269,17 @@ def dec_outcome(x):
     return [list(x[0]), RK[x[1]]]
 
 
+def inject_case(scn, setup, trigger, afterops):
+    return [60, enc_methods(scn), list(scn["defs0"]), enc_ops(setup), [OPC[trigger[0]], trigger[1]], enc_ops(afterops)]
+
+
+def crosscheck_extraction(cases):
+    """the extracted model and Coq's own evaluator (vm_compute) must agree on the same raw cases"""
+    return model.run_cases(cases) == model.run_in_coq(cases)
+
+
 def model_inject(scn, setup, trigger, afterops):
-    case = [60, enc_methods(scn), list(scn["defs0"]), enc_ops(setup), [OPC[trigger[0]], trigger[1]], enc_ops(afterops)]
+    case = inject_case(scn, setup, trigger, afterops)
     rows = model.run_cases([case])[0]
     out = []
     for pc, flags, outs, res in rows:
